@@ -24,7 +24,7 @@ type c16Ev struct {
 // one PMap call. gate: park every invocation until min(bound, remaining) are parked (or nothing more arrives), then release
 // them one at a time in a seeded order.  Positive observations: number parked at once, PMap returning while invocations are parked.
 func c16Run(rng *rand.Rand, n int, pool int, usePool, random, gate bool) E {
-	out := E{"n": n, "pool": 0, "random": random, "gate": gate, "kind": "ok", "maxParked": 0}
+	out := E{"n": n, "pool": 0, "random": random, "gate": gate, "kind": "ok", "maxParked": 0, "fast": 0, "fastout": []int{}, "applied": 0}
 	if usePool {
 		out["pool"] = pool
 	}
@@ -162,7 +162,7 @@ func c16Run(rng *rand.Rand, n int, pool int, usePool, random, gate bool) E {
 
 // big list with a small pool: every worker parks in its first invocation; PMap must not return meanwhile
 func c16Big(rng *rand.Rand, n, pool int, random bool) E {
-	out := E{"n": 0, "pool": 0, "random": false, "gate": true, "kind": "ok", "maxParked": 0, "events": []c16Ev{{"ret", 0}}, "out": []int{}, "big": n}
+	out := E{"n": 0, "pool": 0, "random": false, "gate": true, "kind": "ok", "maxParked": 0, "events": []c16Ev{{"ret", 0}}, "out": []int{}, "big": n, "fast": 0, "fastout": []int{}, "applied": 0}
 	gateCh := make(chan struct{})
 	var started, applied int32
 	list := make([]int, n)
@@ -215,6 +215,50 @@ func c16Big(rng *rand.Rand, n, pool int, random bool) E {
 	return out
 }
 
+// long list, trivial f: every worker runs through hundreds or thousands of elements without ever waiting (whatever is batched or
+// reused between a worker's results shows here); the whole result goes to TLC (Trace_PMapAbs, fields fast / fastout / applied)
+func c16Fast(n, pool int, usePool, random bool) E {
+	out := E{"n": 0, "pool": 0, "random": random, "gate": false, "kind": "ok", "maxParked": 0, "events": []c16Ev{{"ret", 0}}, "out": []int{}, "big": 0,
+		"fast": n, "fastout": []int{}, "applied": 0}
+	var applied int32
+	list := make([]int, n)
+	for i := range list {
+		list[i] = i + 1
+	}
+	f := func(x int) int {
+		atomic.AddInt32(&applied, 1)
+		return 3*x + 1
+	}
+	done := make(chan []int, 1)
+	go func() {
+		defer func() {
+			if recover() != nil {
+				done <- nil
+			}
+		}()
+		var opt *fpgo.PMapOption
+		if usePool || random {
+			opt = &fpgo.PMapOption{RandomOrder: random}
+			if usePool {
+				opt.FixedPool = pool
+			}
+		}
+		done <- fpgo.PMap(f, opt, list...)
+	}()
+	select {
+	case r := <-done:
+		if r == nil {
+			out["kind"] = "PMap panicked"
+		} else {
+			out["fastout"] = r
+		}
+	case <-time.After(60 * time.Second):
+		out["kind"] = "PMap did not return"
+	}
+	out["applied"] = int(atomic.LoadInt32(&applied))
+	return out
+}
+
 func c16Main(args []string) error {
 	switch args[0] {
 	case "record":
@@ -247,6 +291,16 @@ func c16Main(args []string) error {
 		}
 		for r := 0; r < 2+rounds; r++ {
 			w.write(c16Big(rng, 1<<18, 4, r%2 == 1))
+			runs++
+		}
+		for r := 0; r < 1+rounds; r++ {
+			for _, pool := range []int{1, 2, 4, 7} {
+				for _, random := range []bool{true, false} {
+					w.write(c16Fast([]int{20000, 5000, 777}[r%3], pool, true, random))
+					runs++
+				}
+			}
+			w.write(c16Fast(3000, 0, false, r%2 == 0))
 			runs++
 		}
 		fmt.Printf("{\"runs\":%d}\n", runs)
